@@ -124,7 +124,17 @@ def family(seed, tier):
 
 
 def main():
-    return lcheck.run_check(PID, family, {"C11"},
+    # a record that could not be downloaded is not "a non-winning record": the block must be retried, not graded without it
+    doc = live(vlib.seed() + 3, 0, vlib.tier()).doc()
+    doc["name"] = "c11-reqfault"
+    n, bad = lcheck.upstream_fault_pass(PID, doc, {"pn_winners", "pn_grade", "pn_addresses"}, "the winners / rewards differ from the fault-free run",
+                                        stride=3 if vlib.tier() == "quick" else 1)
+    rc = check(n)
+    return 1 if bad else rc
+
+
+def check(nfault):
+    return lcheck.run_check(PID, family, {"C11"}, extra_cov={"upstream_fault_experiments": nfault},
         rule="blocks with OPR sets of every class (none, one fewer than the winner count, exact, more than the cutoff of 50, shared payout addresses, outliers, "
              "wrong version for the height, wrong previous winners) for grader versions 1..5, SPR sets (none, 24, holders outside the top PEG holders, duplicate "
              "coinbase, bad signature, id not matching the signing key, garbage records) for S1..S3, and factoid blocks with valid and invalid burn shapes; the "
